@@ -17,6 +17,7 @@ def run(rep, tier):
     kernels.run_generators(rep, ["apply_operator_vector", "apply_operator_matrix", "reorder_vector", "reorder_matrix"])
     from vf.pyvc import tensors
     tensors.run_tensor_contracts(rep, ["C03"])
+    kernels.run_delegation(rep, ['apply_operation'])
     from vf.pyvc import kronexec
     kronexec.run_combine(rep)
     cells = opcells.multi_target_cells(tier, common.seed())
